@@ -38,7 +38,7 @@ PROPS["C02"] = {
     "models": lambda tier: [],
     "gens": lambda tier: [{"topic": "lang", "n": q(tier, 1500, 30000)}, {"topic": "str", "n": q(tier, 300, 6000)},
                           {"topic": "quant", "n": q(tier, 200, 4000)}, {"topic": "num", "n": q(tier, 150, 3000)},
-                          {"topic": "path", "n": q(tier, 150, 3000)}],
+                          {"topic": "path", "n": q(tier, 150, 3000)}, {"topic": "typ", "n": q(tier, 400, 8000)}],
     "rules": ["oracle", "tri_oracle", "tri_both", "load_outcome", "load_panic", "match_panic"],
     "chunk": 1500,
 }
@@ -77,7 +77,8 @@ PROPS["C03"] = {
          "forms": ["accepted", "rejected"], "workers": 8,
          "plan": {"tri": False, "sws": q(tier, "SOME", "ALL"), "adv": q(tier, 6, 16), "validate": True}},
     ],
-    "gens": lambda tier: [{"topic": "adv", "n": q(tier, 120, 3000)}, {"topic": "big", "n": q(tier, 4, 16)}],
+    "gens": lambda tier: [{"topic": "adv", "n": q(tier, 120, 3000)}, {"topic": "big", "n": q(tier, 4, 16)},
+                          {"topic": "typ", "n": q(tier, 300, 6000)}],
     "rules": ["load_outcome", "load_panic", "opt_panic", "match_panic", "validate_panic", "ser_panic"],
     "chunk": 1500,
 }
